@@ -151,3 +151,9 @@ Example regular_nonvacuous :
   && forallb (doc_nil_present_ok cs) w_regular && forallb (doc_order_ok cs) w_regular
   && forallb (doc_ns_ok cs) w_regular && forallb (tree_nil_ok cs) w_regular = true.
 Proof. vm_compute. reflexivity. Qed.
+
+(* {"s": "123"} : the JSON string is typed xs:int (strict int test true as recorded from the real converter) *)
+Definition w_json_string : list json := [JObj [(L "s", JStr (L "123"))]].
+Definition w_json_tests : list (str * list bool) := [(L "123", [true; false; false; true; false; false; false; false; false])].
+Theorem json_strings_refuted : exists tbl S, forallb (g_json_strings (sconv_of_table tbl)) S = false.
+Proof. exists w_json_tests, w_json_string. vm_compute. reflexivity. Qed.
